@@ -7,7 +7,7 @@ From Coq Require Import List NArith ZArith QArith Qabs Bool Arith Lia Permutatio
 Import ListNotations.
 From FP Require Import Lin Blocks BlocksProofs PathEnc Euler EulerProofs1 EulerProofs4 DagDecode PathEncProofs
                        PathEncComplete PathEncGivenComplete WfCheck CheckedInstances
-                       ErrEnc ErrEncProofs ErrEncProofs2 ErrEncProofs3 ErrEncComplete ErrEncOptimal ErrEncKlae ErrEncGiven ErrEncGivenMpe
+                       ErrEnc ErrEncProofs ErrEncProofs2 ErrEncProofs3 ErrEncComplete ErrEncOptimal ErrEncKlae ErrEncGiven ErrEncGivenMpe ErrEncGivenCons
                        ErrEncChecked ErrEncExamples.
 Local Close Scope Q_scope.
 
@@ -83,6 +83,42 @@ Theorem C07_klae_given_complete : forall (I : err_inst) (ws : list Q) (P : N -> 
   sat (gasg I ws P) (encode_klae I) /\ (objective (gasg I ws P) (encode_klae I) == gcost I ws P)%Q.
 Proof. exact klae_given_complete. Qed.
 Print Assumptions C07_klae_given_complete.
+
+(* solution_weights_superset TOGETHER WITH subpath constraints: layers may be empty, a constraint is realised to the required
+   fraction by ONE layer (necessarily a non-empty one when the required length is positive: C07_given_constraint_needs_a_nonempty_layer).
+   The LP optimum is the minimum over all such choices that realise every constraint. *)
+Theorem C07_klae_given_optimal_with_constraints : forall (I : err_inst) (ws : list Q) (a : var -> Q) (rank : node -> nat) (Rm : nat),
+  e_given I = Some ws -> wf_graph (eG I) -> p_allow_empty (e_base I) = true -> length ws = eK I ->
+  (forall u v, In (u, v) (g_edges (eG I)) -> (rank u < rank v)%nat) -> (forall v, (rank v <= Rm)%nat) ->
+  (forall c e, In c (p_cons (e_base I)) -> In e c -> In e (g_edges (eG I)) /\ (0 <= elen (e_base I) e)%Q) ->
+  (forall e, In e (basic_edges I) -> (0 <= scale_of I e)%Q /\ (e_int I = true -> is_int (flow_of I e))) ->
+  (e_int I = true -> forall q, In q ws -> is_int q) ->
+  sat a (encode_klae I) -> (forall b, sat b (encode_klae I) -> (objective a (encode_klae I) <= objective b (encode_klae I))%Q) ->
+  (exists P, klae_given_choice I ws P /\ constraints_covered (e_base I) P /\ (gcost I ws P == objective a (encode_klae I))%Q) /\
+  (forall P, klae_given_choice I ws P -> constraints_covered (e_base I) P -> (objective a (encode_klae I) <= gcost I ws P)%Q).
+Proof. exact klae_given_optimal_cons. Qed.
+Print Assumptions C07_klae_given_optimal_with_constraints.
+
+Theorem C07_klae_given_complete_with_constraints : forall (I : err_inst) (ws : list Q) (P : N -> list node),
+  e_given I = Some ws -> wf_graph (eG I) -> p_allow_empty (e_base I) = true -> length ws = eK I ->
+  (forall c e, In c (p_cons (e_base I)) -> In e c -> (0 <= elen (e_base I) e)%Q) ->
+  klae_given_choice I ws P -> constraints_covered (e_base I) P ->
+  exists a, sat a (encode_klae I) /\ (objective a (encode_klae I) == gcost I ws P)%Q /\ (forall u v i, a (Edge u v i) = onq P i (u, v)).
+Proof. exact klae_given_complete_cons. Qed.
+Print Assumptions C07_klae_given_complete_with_constraints.
+
+(* non-vacuity: given weights [2;5], one constraint, the second layer empty: hypotheses hold, LP satisfied with objective 2;
+   with every layer empty the constraint is not realised and the LP rows are violated *)
+Example C07_given_with_constraints_example :
+  klae_given_choice wit_gc [2%Q; 5%Q] wit_gc_P /\
+  (constraints_covered (e_base wit_gc) wit_gc_P /\ given_layers (eG wit_gc) (eK wit_gc) wit_gc_P /\
+   sat (gasgc wit_gc [2%Q; 5%Q] wit_gc_P (fun _ => 0%N)) (encode_klae wit_gc) /\
+   (objective (gasgc wit_gc [2%Q; 5%Q] wit_gc_P (fun _ => 0%N)) (encode_klae wit_gc) == 2)%Q).
+Proof. exact (conj klae_given_cons_choice klae_given_cons_example). Qed.
+Example C07_given_constraint_needs_a_nonempty_layer :
+  ~ constraints_covered wit_base_gc (fun _ => []) /\
+  sat_b (gasgc wit_gc [2%Q; 5%Q] (fun _ => []) (fun _ => 0%N)) (encode_klae wit_gc) = false.
+Proof. exact (conj given_constraint_needs_a_nonempty_layer klae_given_cons_empty_rejected). Qed.
 
 Theorem C07_klae_enc_sound : forall (I : err_inst) (a : var -> Q) (rank : node -> nat) (Rm : nat),
   let G := eG I in let k := eK I in
